@@ -288,6 +288,11 @@ def r9_3(ctx: Ctx) -> RuleResult:
 
             parents = parent_map(fn.node)
             par = parents.get(id(c))
+            # a conditional expression / await passes its operand's value on
+            cur_: ast.AST = c
+            while isinstance(par, (ast.IfExp, ast.Await, ast.BoolOp)) and not (isinstance(par, ast.IfExp) and par.test is cur_):
+                cur_ = par
+                par = parents.get(id(par))
             if isinstance(par, ast.Assign) and all(isinstance(t, ast.Name) for t in par.targets):
                 rr.ok(fn.loc(c), f"{fn.qualname}: cache tree bound to a local")
             elif isinstance(par, ast.Call) and callee_name(par) == "walk":
@@ -306,21 +311,20 @@ def r9_3(ctx: Ctx) -> RuleResult:
             if not isinstance(recv, ast.Name):
                 rr.bad(f, c, "set_children on something that is not a local", construct=short(c))
                 continue
+            from .common import path_conditions
+            from .common import value_leaves
+
             srcs = [
-                a.value for a in ast.walk(f.node)
+                leaf for a in ast.walk(f.node)
                 if isinstance(a, ast.Assign) and path_of(a.targets[0]) == recv.id
+                for leaf in value_leaves(a.value)
             ]
             bad = []
             for v in srcs:
                 if isinstance(v, ast.Call) and (path_of(v.func) == "copy.copy" or callee_name(v) == "CachingFilterExpression"):
                     continue
                 # the original leaf may be passed through when it has no children
-                conds = []
-                from .common import path_conditions
-
-                for a in ast.walk(f.node):
-                    if isinstance(a, ast.Assign) and a.value is v:
-                        conds = path_conditions(f.node, a)
+                conds = path_conditions(f.node, v)
                 # the condition must *imply* that there are no children: an atomic
                 # conjunct, not one disjunct of an `or`
                 if any(ast.unparse(t).replace(" ", "") in ("len(children)==0", "notchildren") and b for t, b in conds) or any(
